@@ -390,3 +390,128 @@ Proof.
 Qed.
 
 End Drive.
+
+(* ================= the loop invariant for the file scheme ================= *)
+Lemma nwdl_segs_text_cur s r cur : is_normalized_wdl (segs_text (s :: r) ++ cur) = false.
+Proof.
+  unfold segs_text. cbn [map concat]. rewrite <- !app_assoc.
+  destruct s as [|x [|y s']]; cbn [app].
+  - apply nwdl_head_not_alpha_f. reflexivity.
+  - apply nwdl_second_f. reflexivity.
+  - destruct s' as [|z s'']; cbn [app]; apply nwdl_long_f.
+Qed.
+
+Lemma nwdl_inv s : is_normalized_wdl s = true -> exists a, s = [a; 58] /\ is_alpha a = true.
+Proof.
+  unfold is_normalized_wdl. intros H. apply andb_true_iff in H. destruct H as [H1 H2].
+  destruct (is_wdl_inv s H1) as (a & b & -> & Ha). apply N.eqb_eq in H2. subst b. exists a. split; [reflexivity | exact Ha].
+Qed.
+
+Section LoopInvF.
+Variable pre : list N.
+Variable dbg : bool.
+Notation ps := (nlen pre).
+Notation loop := (parse_path_loop dbg CUrlParser STFile ps).
+Notation Bs := (Bs pre).
+
+Definition good_out (hh : bool) (s' : list N) (hh' : bool) : Prop :=
+  exists segs' last', s' = file_path_fixup STFile ps (Bs segs' ++ last')
+    /\ forallb good_seg_sp segs' = true /\ good_seg_sp last' = true /\ (hh' = hh \/ hh' = false).
+Definition drive_out (s' : list N) : Prop := exists a, is_alpha a = true /\ D pre a s'.
+
+Lemma Bs_skip1 segs cur : nskipn (ps + 1) (Bs segs ++ cur) = segs_text segs ++ cur.
+Proof.
+  unfold C02_PathL1.Bs. rewrite <- !app_assoc. rewrite app_assoc.
+  replace (ps + 1) with (nlen (pre ++ [47])) by (rewrite nlen_app; reflexivity).
+  apply nskipn_app_len.
+Qed.
+
+Lemma push_pending_shape_ff segs cur pend : usv_list pend ->
+  push_pending CUrlParser STFile (Bs segs ++ cur) pend = Bs segs ++ (cur ++ encode T_PATH (utf8_encode (rev pend))).
+Proof. intros H. rewrite push_pending_eq_sp by exact H. rewrite <- app_assoc. reflexivity. Qed.
+
+Lemma floop_bslash r ser ss pend hh :
+  loop (92 :: r) ser ss pend hh
+  = (' (s2, hh') <~ finish_segment dbg STFile ps (push_pending CUrlParser STFile ser pend ++ [47]) ss true hh ;;
+     loop r s2 (nlen s2) [] hh').
+Proof. reflexivity. Qed.
+
+Lemma good_out_hh hh hh2 s' hh' : (hh2 = hh \/ hh2 = false) -> good_out hh2 s' hh' -> good_out hh s' hh'.
+Proof.
+  intros H2 (segs' & last' & E & G1 & G2 & G3). exists segs', last'. repeat split; try assumption.
+  destruct G3 as [->| ->]; [exact H2 | right; reflexivity].
+Qed.
+
+Theorem loop_inv_f l : forall segs cur pend hh s' hh' rem, usv_list l -> pend_ok_sp pend ->
+  forallb good_seg_sp segs = true -> clean T_PATH cur = true -> no_slash cur = true -> no_byte 92 cur = true ->
+  (is_normalized_wdl (segs_text segs ++ cur) = true -> pend = []) ->
+  loop l (Bs segs ++ cur) (nlen (Bs segs)) pend hh = POk (s', hh', rem) ->
+  rem = cbb_rest l /\ (good_out hh s' hh' \/ drive_out s').
+Proof.
+  assert (forall l0 segs cur pend hh s' hh' rem,
+            match l0 with [] => True | c :: _ => is_qh c = true /\ is_tnl c = false end ->
+            pend_ok_sp pend -> forallb good_seg_sp segs = true -> clean T_PATH cur = true -> no_slash cur = true ->
+            no_byte 92 cur = true ->
+            loop l0 (Bs segs ++ cur) (nlen (Bs segs)) pend hh = POk (s', hh', rem) ->
+            rem = l0 /\ good_out hh s' hh') as Hend.
+  { intros l0 segs cur pend hh s' hh' rem Hl Hp Hsegs Hc Hn Hb H.
+    rewrite floop_end in H by exact Hl. rewrite push_pending_shape_ff in H by (destruct Hp; assumption).
+    destruct (pend_flush_sp cur pend Hc Hn Hb Hp) as (Hc' & Hn' & Hb').
+    destruct (finish_inv_f pre dbg segs (cur ++ encode T_PATH (utf8_encode (rev pend))) false hh Hsegs Hc' Hn' Hb') as (segs' & last' & hh2 & Hf & G1 & G2 & _ & G4).
+    rewrite app_nil_r in Hf. rewrite Hf in H. cbn [pbind] in H. inversion H; subst.
+    split; [reflexivity|]. exists segs', last'. repeat split; assumption. }
+  induction l as [|c r IH]; intros segs cur pend hh s' hh' rem Hu Hp Hsegs Hc Hn Hb Hside H.
+  - destruct (Hend [] segs cur pend hh s' hh' rem I Hp Hsegs Hc Hn Hb H) as [G1 G2]. split; [exact G1 | left; exact G2].
+  - apply usv_cons in Hu. destruct Hu as [Huc Hur]. cbn [cbb_rest].
+    destruct (is_tnl c) eqn:Et.
+    + cbn [parse_path_loop] in H. rewrite Et in H. rewrite push_pending_shape_ff in H by (destruct Hp; assumption).
+      destruct (pend_flush_sp cur pend Hc Hn Hb Hp) as (Hc' & Hn' & Hb').
+      apply (IH segs (cur ++ encode T_PATH (utf8_encode (rev pend))) [] hh s' hh' rem Hur); try assumption.
+      * exact pend_nil_ok.
+      * intros _. reflexivity.
+    + destruct (is_qh c) eqn:Eq.
+      * destruct (Hend (c :: r) segs cur pend hh s' hh' rem (conj Eq Et) Hp Hsegs Hc Hn Hb H) as [G1 G2].
+        split; [exact G1 | left; exact G2].
+      * assert ((' (s2, hh1) <~ finish_segment dbg STFile ps
+                                (push_pending CUrlParser STFile (Bs segs ++ cur) pend ++ [47]) (nlen (Bs segs)) true hh ;;
+                 loop r s2 (nlen s2) [] hh1) = POk (s', hh', rem) ->
+                rem = cbb_rest r /\ (good_out hh s' hh' \/ drive_out s')) as Hsep.
+        { intros H0.
+          rewrite push_pending_shape_ff in H0 by (destruct Hp; assumption).
+          destruct (pend_flush_sp cur pend Hc Hn Hb Hp) as (Hc' & Hn' & Hb').
+          destruct (finish_inv_f pre dbg segs (cur ++ encode T_PATH (utf8_encode (rev pend))) true hh Hsegs Hc' Hn' Hb') as (segs' & last' & hh2 & Hf & G1 & G2 & G3 & G4).
+          rewrite <- app_assoc in H0. rewrite Hf in H0. cbn [pbind] in H0. rewrite (G3 eq_refl) in H0.
+          rewrite app_nil_r in H0.
+          rewrite <- (app_nil_r (Bs segs')) in H0 at 1.
+          destruct (IH segs' [] [] hh2 s' hh' rem Hur pend_nil_ok G1 eq_refl eq_refl eq_refl (fun _ => eq_refl) H0) as [R1 R2].
+          split; [exact R1|]. destruct R2 as [R2|R2]; [left; exact (good_out_hh hh hh2 s' hh' G4 R2) | right; exact R2]. }
+        destruct (c =? 47) eqn:E47.
+        -- apply N.eqb_eq in E47. subst c. rewrite floop_slash in H. exact (Hsep H).
+        -- destruct (c =? 92) eqn:E92.
+           ++ apply N.eqb_eq in E92. subst c. rewrite floop_bslash in H. exact (Hsep H).
+           ++ cbn [parse_path_loop] in H. rewrite Et in H. cbn [ctx_eqb negb st_is_special st_is_file andb] in H.
+              rewrite E47, E92 in H. cbn [andb orb] in H. unfold is_qh in Eq. rewrite Eq in H. cbn [andb] in H.
+              rewrite Bs_skip1 in H.
+              destruct (is_normalized_wdl (segs_text segs ++ cur)) eqn:E4.
+              ** (* the arm that puts '/' after a drive letter *)
+                 rewrite (Hside eq_refl) in H. cbn [push_pending] in H.
+                 destruct segs as [|s0 sr]; [|rewrite nwdl_segs_text_cur in E4; discriminate E4].
+                 cbn [segs_text map concat app] in E4. destruct (nwdl_inv cur E4) as (a & -> & Ha).
+                 pose proof (Bs_len_ge pre []) as Hl.
+                 replace (ps <? nlen (Bs [] ++ [a; 58])) with true in H by (rewrite nlen_app; lia). cbn [andb] in H.
+                 assert (D pre a ((Bs [] ++ [a; 58]) ++ [47])) as Hd.
+                 { exists []. unfold P0, C02_PathL1.Bs. cbn [segs_text map concat]. rewrite !app_nil_r. rewrite <- !app_assoc. reflexivity. }
+                 assert (nlen (Bs []) + 1 = ps + 2) as Ess.
+                 { unfold C02_PathL1.Bs. cbn [segs_text map concat]. rewrite app_nil_r, nlen_app. unfold nlen at 2. cbn [length]. lia. }
+                 assert (usv_list [c]) as Hc1 by (apply usv_cons; split; [exact Huc | constructor]).
+                 destruct (loop_drive pre dbg a Ha r ((Bs [] ++ [a; 58]) ++ [47]) (nlen (Bs []) + 1) [c] hh s' hh' rem
+                             Hur Hc1 Hd (or_introl Ess) H) as (R1 & _ & R3).
+                 split; [exact R3 | right; exists a; split; assumption].
+              ** rewrite andb_false_r in H.
+                 apply (IH segs cur (c :: pend) hh s' hh' rem Hur); try assumption.
+                 --- destruct Hp as (Hp1 & Hp2 & Hp3). split; [apply usv_cons; split; assumption|].
+                     unfold no_byte in *. cbn [forallb]. rewrite E47, E92, Hp2, Hp3. split; reflexivity.
+                 --- intros Hx. rewrite Hx in E4. discriminate E4.
+Qed.
+
+End LoopInvF.
